@@ -27,7 +27,7 @@ def showRes : MiscResult → String
   | .status b => s!"b:{if b then 1 else 0}"
 
 def showOut : Out → String
-  | .enq p => s!"enq:{p.chan}:{toHex p.data}"
+  | .enq p _ => s!"enq:{p.chan}:{toHex p.data}"
   | .tx p => s!"tx:{p.chan}:{toHex p.data}"
   | .raised e => s!"raise:{e}"
   | .ret v => s!"ret:{showV v}"
@@ -35,7 +35,9 @@ def showOut : Out → String
   | .update cb cn v => s!"upd:{cb}:{showCn cn}:{showV v}"
   | .allUpdated => "allupd"
   | .misc rid cn r => s!"misc:{rid}:{showCn cn}:{showRes r}"
-  | .released => "rel"
+  | .refusedCb rid cn => s!"misc:{rid}:{showCn cn}:b:0"
+  | .released _ => "rel"
+  | .rxd _ => "rxd"
   | .cbError e => s!"cberr:{e}"
 
 def showOuts (l : List Out) : String :=
